@@ -43,7 +43,7 @@ inline OpResult op_copy(Edge& e) {
 	new (g_slot[1].bytes) Inst(*inst(0));
 	g_alloc.in_lib = 0;
 	Abs a0, a1; G.cur = inst(0); read_abs(*inst(0), a0); G.cur = inst(1); read_abs(*inst(1), a1);
-	uint8_t k0[512], k1[512]; size_t n0 = make_key(*inst(0), k0), n1 = make_key(*inst(1), k1);
+	uint8_t k0[KEYMAX], k1[KEYMAX]; size_t n0 = make_key(*inst(0), k0), n1 = make_key(*inst(1), k1);
 	uint8_t eq = 0;
 	if (!memcmp(&a0, &a1, sizeof a0)) eq |= 1;
 	if (n0 == n1 && !memcmp(k0, k1, n0)) eq |= 2;
@@ -123,7 +123,10 @@ inline void m_plans(const Edge& e, const Parsed& P, unsigned props) {
 	default: break;
 	}
 
-	auto finish_phase_cb = [&]() { if (lastPhaseMeth >= 0 && lastWasSub && t > sub) sub = t; };
+	// The status a phase hands up for the sub-state is whatever the control holds when the sub-state's delivery returns -- also when
+	// that state defines no handler for the event (nothing observable is delivered then). In the pre and main phases the head runs
+	// first, so a report the head made in that phase is part of it; in the post phase the sub-state comes first.
+	auto finish_phase_cb = [&]() { if (lastPhaseMeth >= 0 && (lastWasSub || lastPhaseMeth < 2) && t > sub) sub = t; };
 	auto do_step = [&]() {
 		if (stepDone) return; stepDone = true;
 		finish_phase_cb(); lastPhaseMeth = -1;
@@ -161,9 +164,9 @@ inline void m_plans(const Edge& e, const Parsed& P, unsigned props) {
 			if (!phase) { if (cycle && !stepDone) do_step(); }
 			apply_pending_clears();
 			if (phase) {
-				finish_phase_cb();
 				const int region = (v.meth == M_PRE_UPDATE || v.meth == M_PRE_REACT) ? 0 : (v.meth == M_UPDATE || v.meth == M_REACT) ? 1 : 2;
-				if (region != lastPhaseMeth) t = ST_NONE;
+				if (region != lastPhaseMeth) { finish_phase_cb(); t = ST_NONE; }                       // the previous phase has ended
+				else if (lastPhaseMeth == 2 && lastWasSub && t > sub) sub = t;                          // post phase: the sub-state has just returned, the head follows
 				lastPhaseMeth = region; lastWasSub = v.sid != ROOT;
 			}
 			if (c09 && checkEmptyAfterOutcome) { checkEmptyAfterOutcome = false; if (v.planlen) flag(C09, "plan-not-empty-after-outcome", e, "ev %d: %d tasks visible after the outcome callback returned", i, v.planlen); }
@@ -209,7 +212,7 @@ inline void m_plans(const Edge& e, const Parsed& P, unsigned props) {
 	}
 	if (cycle && !stepDone) do_step();
 	apply_pending_clears();
-	if (e.op.k == OP_EXIT || e.op.k == OP_DESTROY || (e.op.k == OP_LOAD && e.op.a == N)) { pm_clear(m); m.exists = false; m.active = NONE8; }
+	if (A0 != NONE8 && (e.op.k == OP_EXIT || e.op.k == OP_DESTROY || (e.op.k == OP_LOAD && e.op.a == N))) { pm_clear(m); m.exists = false; m.active = NONE8; }   // deactivation of an active machine; loading 'inactive' into an inactive one is a no-op
 	if (e.terminal) return;
 	g_ghost_out = PlanGhost{true, m.succ, m.fail, m.exists};
 	g_ghost_diverged = e.post.succ != m.succ || e.post.fail != m.fail || (e.post.exists != 0) != m.exists;
@@ -323,12 +326,14 @@ inline void m10(const Edge& e, const Parsed&) {
 	if (e.post.planbool > 1) flag(C10, "plan-views-disagree", e, "after the call the read-only plan of the (const) machine and its mutable plan disagree (emptiness test or iteration)");
 	if (e.res.heldViewStale) flag(C10, "held-view-stale", e, "a read-only plan view obtained before the call shows something else than one obtained after it (emptiness test or iteration)");
 	if (e.post.planlen > TASK_CAP) flag(C10, "capacity-exceeded", e, "%d tasks, capacity %d", e.post.planlen, TASK_CAP);
-	if (e.post.active == NONE8 && e.post.planlen) flag(C10, "plan-survives-deactivation", e, "%d tasks on an inactive machine", e.post.planlen);
+	if (!e.initial && e.pre.active != NONE8 && e.post.active == NONE8 && e.post.planlen) flag(C10, "plan-survives-deactivation", e, "%d tasks on the machine after its deactivation", e.post.planlen);   // (a manually activated machine may be given a plan while it is inactive)
 }
 #endif
 
 // =========================================================================== C12: save / load as edges
 inline void m12(const Edge& e, const Parsed& P) {
+	// save() called from inside a callback (through the context) writes the canonical buffer of the activity the machine reports then
+	for (int i = 0; i < e.nev; ++i) { const Ev& v = e.tr[i]; if (v.kind == EV_MARK) break; if (v.kind == EV_CB && (v.ctl & 0x10)) { flag(C12, "reentrant-save", e, "ev %d: save() from inside %s of %s%d (machine reports state %d active) does not produce the buffer of that activity", i, METH_NAME[v.meth], v.sid == ROOT ? "R" : "S", v.sid == ROOT ? 0 : v.sid, v.m_active == NONE8 ? -1 : v.m_active); break; } }
 #if VX_SER
 	if (e.op.k == OP_SAVE) {
 		if (!e.key_unchanged) flag(C12, "save-modified-machine", e, "state differs after save()");
@@ -390,6 +395,7 @@ inline void m15(const Edge& e, const Parsed&) {
 		if (n != k + own) { flag(C15, "group-incomplete", e, "ev %d: %s on %d delivered to %d of %d members (injections%s)", i, METH_NAME[v.meth], v.sid, n, k + own, own ? " + state" : " only: the state defines no such callback"); i = j > i ? j : i + 1; continue; }
 		bool each = true; unsigned seen = 0; for (int q = 0; q < n; ++q) { if (seen & (1u << seq[q])) each = false; seen |= 1u << seq[q]; }
 		if (!each) flag(C15, "member-twice", e, "ev %d: %s on %d", i, METH_NAME[v.meth], v.sid);
+		for (int q = i; q < j; ++q) if (e.tr[q].kind == EV_CB && !(e.tr[q].flags & OF_THIS)) { flag(C15, "member-on-foreign-object", e, "ev %d: %s of injection %d of state %d ran on an object that is not part of the state access<T>() returns (a copy?)", q, METH_NAME[e.tr[q].meth], e.tr[q].inj, e.tr[q].sid); break; }
 		// one lifecycle event, one group: a second delivery of the same callback kind to the same state can only belong to another event,
 		// and between two events of the same kind for the same state something else always happens (an action that causes the second one,
 		// or a delivery to another state)
@@ -408,6 +414,10 @@ inline void m15(const Edge& e, const Parsed&) {
 inline void m14(const Edge& e, const Parsed&) {
 	for (int i = 0; i < e.nev; ++i) { const Ev& v = e.tr[i]; if (v.kind == EV_MARK) break; if (v.kind != EV_CB) continue;
 		if (!(v.flags & OF_THIS)) { flag(C14, "access-identity", e, "ev %d: %s of %s%d (injection %d) ran on an object that is not the one access<T>() returns (const and non-const overloads)", i, METH_NAME[v.meth], v.sid == ROOT ? "R" : "S", v.sid == ROOT ? 0 : v.sid, v.inj); break; }
+		if (v.ctl & 0x20) { flag(C14, "query-dispatch", e, "ev %d: a query issued from inside %s of state %d did not reach the head and the state the machine reports active (%d)", i, METH_NAME[v.meth], v.sid, v.m_active == NONE8 ? -1 : v.m_active); break; }
+		// inside its own lifecycle and phase callbacks a state is the active one; an enter() only reaches a state that is not entered yet
+		if (v.sid != ROOT && (v.meth == M_ENTER || v.meth == M_REENTER || v.meth == M_EXIT || is_phase(v.meth) || v.meth == M_QUERY) && v.m_active != v.sid) { flag(C14, "callback-on-inactive-state", e, "ev %d: %s delivered to state %d while the machine reports %d active", i, METH_NAME[v.meth], v.sid, v.m_active == NONE8 ? -1 : v.m_active); break; }
+		if (v.sid != ROOT && v.meth == M_ENTER && (v.ctl & 0x40)) { flag(C14, "enter-on-entered-state", e, "ev %d: enter (injection %d) delivered to state %d, which was entered and not exited", i, v.inj, v.sid); break; }
 		if (v.ctl_sid != v.sid) { flag(C14, "control-stateId", e, "ev %d: control.stateId() = %d inside %s of state %d", i, v.ctl_sid, METH_NAME[v.meth], v.sid); break; } }
 }
 
@@ -608,7 +618,7 @@ inline void companion_copy(const Edge& e) {
 	if (e.ndev > g_comp.copy_dev) return;
 	// keep the original's result
 	static Ev saved[MAXEV]; const int nsaved = e.nev; memcpy(saved, e.tr, sizeof(Ev) * nsaved);
-	uint8_t postkey[512]; memcpy(postkey, g_comp.postkey, g_comp.keylen);
+	uint8_t postkey[KEYMAX]; memcpy(postkey, g_comp.postkey, g_comp.keylen);
 	const Abs post = e.post; const OpResult res = e.res;
 #if VX_SER
 	SerBuf savedBuf; if (e.op.k == OP_SAVE) memcpy(&savedBuf, &g_savebuf, sizeof savedBuf);
@@ -650,13 +660,15 @@ inline void companion_copy(const Edge& e) {
 			if (a0.prev.set != a1.prev.set || a0.prev.tag != a1.prev.tag) flag(C07, "companion-payload", ec, "%s-constructed machine exposes payload p%d/%d in previousTransition(), the original p%d/%d", g_comp.move ? "move" : "copy", a1.prev.tag, a1.prev.set, a0.prev.tag, a0.prev.set); }
 		if (a0.req != a1.req) { flag(C02, "companion-request", ec, "%s-constructed machine has outstanding request %d>%d, the original %d>%d", g_comp.move ? "move" : "copy", a1.req.o == NONE8 ? -1 : a1.req.o, a1.req.d == NONE8 ? -1 : a1.req.d, a0.req.o == NONE8 ? -1 : a0.req.o, a0.req.d == NONE8 ? -1 : a0.req.d);
 			if (a0.req.set != a1.req.set || a0.req.tag != a1.req.tag) flag(C07, "companion-payload", ec, "%s-constructed machine exposes payload p%d/%d in its outstanding request, the original p%d/%d", g_comp.move ? "move" : "copy", a1.req.tag, a1.req.set, a0.req.tag, a0.req.set); }
+		if (a0.req != a1.req) flag(C06, "companion-request", ec, "%s-constructed machine: controls and request() will report %d>%d as waiting, the original %d>%d", g_comp.move ? "move" : "copy", a1.req.o == NONE8 ? -1 : a1.req.o, a1.req.d == NONE8 ? -1 : a1.req.d, a0.req.o == NONE8 ? -1 : a0.req.o, a0.req.d == NONE8 ? -1 : a0.req.d);
+		if (a0.logger != a1.logger) flag(C16, "companion-logger", ec, "%s-constructed machine %s a logger, the original %s (nobody attached or detached one)", g_comp.move ? "move" : "copy", a1.logger ? "has" : "has lost", a0.logger ? "has one" : "has none");
 		if (a0.active != a1.active || a0.mask != a1.mask) flag(C01, "companion-activity", ec, "%s-constructed machine reports active=%d, the original %d", g_comp.move ? "move" : "copy", a1.active == NONE8 ? -1 : a1.active, a0.active == NONE8 ? -1 : a0.active);
 	}
 	G.mode = g_strategy_mode ? DM_STRATEGY : DM_DFS; G.begin(e.ndev, e.dev_pos, e.dev_alt);
 	const OpResult res2 = apply(e.op, 1);
 	++n_companion_runs;
 	Edge ee = e; ee.tr = G.tr; ee.nev = G.nev;
-	uint8_t k1[512]; make_key(*inst(1), k1); uint8_t k0[512]; make_key(*inst(0), k0);
+	uint8_t k1[KEYMAX]; make_key(*inst(1), k1); uint8_t k0[KEYMAX]; make_key(*inst(0), k0);
 	Abs post2; G.cur = inst(1); read_abs(*inst(1), post2); G.cur = inst(0);
 	if (G.nev != nsaved || memcmp(saved, G.tr, sizeof(Ev) * nsaved)) flag(C17, "copy-behaves-differently", ee, "the copy answered the same call with different callbacks/observations (%d events vs %d on the original)", G.nev, nsaved);
 	else if (memcmp(k1, postkey, g_comp.keylen)) flag(C17, "copy-reaches-different-state", ee, "same call, same callbacks, different resulting state (copy: act=%d prev=%d>%d, original: act=%d prev=%d>%d)", post2.active, post2.prev.o, post2.prev.d, post.active, post.prev.o, post.prev.d);
